@@ -363,6 +363,13 @@ func (hs *clientHandshakeStateTLS13) processHelloRetryRequest() error {
 	}
 
 	if len(hello.pskIdentities) > 0 {
+		// [uTLS] PSK identities installed by the caller (FakePreSharedKeyExtension through
+		// SetPskExtension) have no session behind them: there is nothing to re-bind. Fail like
+		// processServerHello does for a selected PSK without a session, instead of
+		// dereferencing the nil session.
+		if hs.session == nil {
+			return c.sendAlert(alertInternalError)
+		}
 		pskSuite := cipherSuiteTLS13ByID(hs.session.cipherSuite)
 		if pskSuite == nil {
 			return c.sendAlert(alertInternalError)
